@@ -95,6 +95,16 @@ def operand_order_program(rng):
         L.append("    (println (%s level (bump)))\n" % op)
         L.append("    (println (%s (bump) level))\n" % op)
         L.append("    (println (%s (+ 1 (p %d)) (* 2 (p %d))))\n" % (op, k * 10 + 1, k * 10 + 2))
+    # an operand that makes the result independent of the other one (x*0, x%1, x-x ...) or leaves it unchanged (x+0, x*1) does not
+    # make the other operand's evaluation optional
+    for op, lt in (("*", 0), ("*", 1), ("+", 0), ("-", 0), ("/", 1), ("%", 1), ("*", -1), ("/", -1), ("%", -1)):
+        k += 2
+        L.append("    (println (%s (p %d) %d))\n" % (op, k * 10 + 1, lt))
+        L.append("    (println (%s (bump) %d))\n" % (op, lt))
+        if op in ("*", "+"):
+            L.append("    (println (%s %d (p %d)))\n" % (op, lt, k * 10 + 2))
+            L.append("    (println (%s %d (bump)))\n" % (op, lt))
+    L.append("    (println (- 0 (p 21)))\n    (println (- (p 22) (p 22)))\n")
     # string operators, calls, array literals and array builtins with effectful arguments
     L.append("    (println (+ (ps %d) (ps %d)))\n" % (k * 10 + 3, k * 10 + 4))
     L.append("    (println (== (ps %d) (ps %d)))\n" % (k * 10 + 5, k * 10 + 6))
@@ -335,13 +345,58 @@ def array_ops_program(rng):
                      % ", ".join(str(10 + k) for k in range(n))),
            ("grow", "fn grow(n: int) -> int {\n    let mut k: int = n\n    let mut c: int = 0\n    for i in (range 0 k) {\n        set k (+ k 1)\n        set c (+ c 1)\n        if (> c 60) { break }\n    }\n    return (+ (* c 100) k)\n}\n"),
            ("edit", "fn edit(i: int) -> int {\n    let mut a: array<int> = [1, 2, 3, 4, 5]\n    set a (array_remove_at a i)\n    (array_set a 0 (+ (at a 0) 40))\n    let last: int = (array_pop a)\n    (println a)\n    return (+ last (array_length a))\n}\n")]
-    calls = []
+    fns.append(("wslice", "fn wslice(v: int) -> int {\n    let mut a: array<int> = [1, 2, 3, 4]\n    let mut b: array<int> = (array_slice a 0 4)\n    (array_set b 0 v)\n    set b (array_push b 7)\n    (array_set a 1 55)\n"
+                          "    let last: int = (array_pop a)\n    (println a)\n    (println b)\n    return (+ (* (at a 0) 1000) (+ (* (at b 1) 10) (+ (array_length a) (+ last (array_length b)))))\n}\n"))
+    calls = [("wslice", "(wslice 99)"), ("wslice", "(wslice -3)")]
     for st, ln in [(0, 0), (0, n), (1, 3), (n - 1, 1), (2, n - 2), (1, 1), (0, 1)] + [(rng.randrange(n), 1)]:
         calls.append(("slsum", "(slsum %d %d)" % (st, ln)))
     for k in (0, 1, 4):
         calls.append(("grow", "(grow %d)" % k))
     for i in (0, 2, 4):
         calls.append(("edit", "(edit %d)" % i))
+    return shadowed(fns, calls)
+
+
+def intern_churn_program(rng):
+    """hundreds of distinct run-time strings, most of which die at once; the kept ones are later rebuilt from scratch and
+    compared: equal text is equal, whatever the string table went through in between"""
+    n = rng.choice([300, 600, 900])
+    step = rng.choice([2, 3, 5])
+    pre = rng.choice(["k", "key-", "", "id"])
+    fns = [("churn", ("fn churn(n: int) -> int {\n    let mut keep: array<string> = [\"first\"]\n    let mut i: int = 0\n    while (< i n) {\n        let s: string = (+ \"%s\" (int_to_string i))\n"
+                      "        if (== (%% i %d) 0) {\n            set keep (array_push keep s)\n        }\n        set i (+ i 1)\n    }\n    let mut eq: int = 0\n    let mut j: int = 0\n"
+                      "    while (< j (- (array_length keep) 1)) {\n        let t: string = (+ \"%s\" (int_to_string (* j %d)))\n        if (== t (at keep (+ j 1))) {\n            set eq (+ eq 1)\n        }\n"
+                      "        if (str_equals t (at keep (+ j 1))) {\n            set eq (+ eq 1000)\n        }\n        if (!= t (at keep (+ j 1))) {\n            (println t)\n        }\n        set j (+ j 1)\n    }\n    return eq\n}\n") % (pre, step, pre, step))]
+    return shadowed(fns, [("churn", "(churn %d)" % n), ("churn", "(churn 40)")])
+
+
+def order_in_calls_shadowed(rng):
+    """a mutable top-level variable read in one argument and advanced by a function called in a later (or earlier) argument of the
+    same call, inside functions that shadow tests run: the compile-time result and the compiled program must agree"""
+    fns = [("span", "let mut next_id: int = %d\nfn fresh() -> int {\n    set next_id (+ next_id 1)\n    return next_id\n}\nshadow fresh { assert (== 1 1) }\n"
+                     "fn span(a: int, b: int) -> int {\n    return (+ (* a 100) b)\n}\n" % rng.randint(0, 5)),
+           ("span3", "fn span3(a: int, b: int, c: int) -> int {\n    return (+ (* a 10000) (+ (* b 100) c))\n}\n"),
+           ("take", "fn take() -> int {\n    return (span next_id (fresh))\n}\n"),
+           ("take2", "fn take2() -> int {\n    return (span (fresh) next_id)\n}\n"),
+           ("take3", "fn take3() -> int {\n    return (span3 next_id next_id (fresh))\n}\n"),
+           ("take4", "fn take4() -> int {\n    return (span3 next_id (fresh) next_id)\n}\n"),
+           ("take5", "fn take5() -> int {\n    return (+ next_id (fresh))\n}\n"),
+           ("take6", "fn take6() -> int {\n    return (span (+ next_id 1) (fresh))\n}\n")]
+    calls = [("span", "(span 1 2)"), ("span3", "(span3 1 2 3)")]
+    for nm in ("take", "take2", "take3", "take4", "take5", "take6"):
+        calls += [(nm, "(%s)" % nm), (nm, "(%s)" % nm)]
+    return shadowed(fns, calls)
+
+
+def nan_program(rng):
+    """floats that are not numbers: a NaN differs from itself, in conditions and in assertions, at compile time and in the binary"""
+    fns = [("rootc", "fn rootc(x: float) -> int {\n    let r: float = (sqrt x)\n    if (!= r r) {\n        return -1\n    } else {\n        return (cast_int r)\n    }\n}\n"),
+           ("selfeq", "fn selfeq(x: float) -> bool {\n    let r: float = (sqrt x)\n    return (== r r)\n}\n"),
+           ("guarded", "fn guarded(x: float) -> int {\n    let r: float = (sqrt x)\n    if (< x 0.0) {\n        assert (!= r r)\n        assert (not (== r r))\n        assert (not (<= r r))\n        return -1\n    } else {\n        assert (== r r)\n        assert (>= r r)\n        return (cast_int r)\n    }\n}\n")]
+    calls = []
+    for v in (16.0, -1.0, 0.0, -4.5, 2.25):
+        for nm in ("rootc", "selfeq", "guarded"):
+            calls.append((nm, "(%s %r)" % (nm, v)))
     return shadowed(fns, calls)
 
 
